@@ -102,7 +102,7 @@ theorem inv3_stepCasA {s s' : State} {t : Tid} {o : Ord} {loc : Loc} {exp new ob
     rcases casWord_ok hs with ⟨hw, -, rfl⟩ | ⟨-, -, rfl⟩
     · exact Inv3.take t h (word_spin_free h hw hok0) (by simp [mtAcqWord]) (by simp) (by intro u hu; simp [setFn, hu])
         (by simp [PC.spin]) (by simpa [PC.ok3] using hok0)
-    · split <;> inv3_local t h heq
+    · inv3_local t h heq
 
 theorem inv3_stepCasC {s s' : State} {t : Tid} {o : Ord} {loc : Loc} {exp new obs : Nat} {ok : Bool} (h1 : Inv1 s) (h : Inv3 s)
     (hp : match s.pc t with
